@@ -42,7 +42,7 @@ SEG_LENGTHS = (1e-12, 2e-11, 1e-10, 5e-9, 9.9e-9, 1.01e-8, 2e-8, 5e-8, 1e-3, 0.0
 def floors(tier):
     f = {"evals": {"write": 5000, "write.raising": 200}, "classes": {}}
     for c in ("sliver-at-start", "sliver-in-middle", "sliver-at-end", "sliver-chain>=2", "labelled-sliver", "threshold-None", "blanks-off-verbatim",
-              "override-raises", "override-above", "override-below", "override-equal", "dest-untouched", "override-ulps-inside-data"):
+              "override-raises", "override-above", "override-below", "override-equal", "dest-untouched", "override-ulps-inside-data", "override-cuts-off-a-point-only"):
         f["classes"]["C04:" + c] = 30
     for fmt in TC.FORMATS:
         f["classes"]["C04:format:" + fmt] = 300
@@ -451,6 +451,17 @@ def workload(tier, rng, shard, nshards, work):
             if rng.random() < 0.3:
                 # (a point tier stands anywhere among the interval tiers, also first)
                 data["tiers"].insert(rng.randrange(len(data["tiers"]) + 1), {"t": "P", "name": "pp", "min": tmin, "max": tmax, "entries": [(start, "p"), (start + 3e-9, "q")] if start + 3e-9 <= tmax else [(start, "p")]})
+            late = None
+            if rng.random() < 0.15:
+                # marks before the first / after the last interval: an override between the intervals and the outermost mark leaves every
+                # interval (and the nearer marks) inside the requested span and one mark outside it
+                late = (ents[0][0] / 2 if ents[0][0] > tmin else None, ents[-1][1] + 0.3)
+                pts = [(ents[0][0], "in1"), ((ents[0][0] + ents[-1][1]) / 2, "in2"), (late[1], "after")] + ([(late[0], "before")] if late[0] is not None else [])
+                tmax = max(tmax, late[1] + 0.2)
+                for t in data["tiers"]:
+                    t["max"] = tmax
+                data["max"] = tmax
+                data["tiers"].insert(rng.randrange(len(data["tiers"]) + 1), {"t": "P", "name": "marks", "min": tmin, "max": tmax, "entries": sorted(pts)})
             try:
                 tg = TC.build_tg(data)
             except Exception:
@@ -484,7 +495,14 @@ def workload(tier, rng, shard, nshards, work):
                     import math
 
                     minT = math.nextafter(first, math.inf) if rng.random() < 0.5 else first * (1 + 4e-15)
-                if rng.random() < 0.12:
+                if late is not None and _j < 2:
+                    minT = maxT = None
+                    if _j == 0 or late[0] is None:
+                        maxT = rng.choice([last + 0.1, last + 0.3 - 1e-9, last])  # the last interval fits, the last mark does not
+                    else:
+                        minT = rng.choice([(late[0] + first) / 2, first])  # the first interval fits, the first mark does not
+                    REC.cls("C04:override-cuts-off-a-point-only")
+                elif rng.random() < 0.12:
                     # both ends of the file's span named in one call
                     minT = rng.choice([tmin, tmin - 0.5, 0.0 if tmin > 0 else tmin - 1.0, (first + tmin) / 2 if first > tmin else tmin])
                     maxT = rng.choice([tmax, tmax + 0.5, tmax + 2.0, (first + last) / 2])
